@@ -203,9 +203,9 @@ PROPS = {
         "level_text": "Props/C12: shutdown_reaches_inner, no_inner_source_leaked, no_deadlock, step_increases_rank/rank_bounded — for every interleaving of shutter.Shutdown with the obtain / make-known / run pattern, the inner source is shut down once the callbacks ran, no created inner source is left neither run nor shut down, some thread can always move until Run returned, and runs are finite; joining/eternal/multiplexed_uses_safe_pattern tie the theorems to the pattern found in /repo by the go/ast extractor on every run; register_only_counter, publish_only_counter, locked_init_leak_counter are the kernel-checked schedules of the three defects fixed in /repo (43aefa8, 51cbf31, 322f3ac). 'Handlers are never run concurrently' and 'restart from the last accepted block' are checked on the real sources (21 shutdown instants per case, overlap detector, restart reference).", "level_note": LEVEL_NOTE_COMMON, "explanation": 'all interleavings of the abstract shutter model; pattern regenerated from source; real sources exercised at 21 shutdown instants per case',
     },
     "C09": {
-        "suites": [("hubburst", 2500, 30000)], "props": ["C09"], "level": "proof",
-        "projection": proj_forkable, "nontrivial": lambda suite, case, impl: any(l.startswith("impl b newirr") for l in case["lines"]),
-        "rule": "same cases as C05; non-trivial = some burst by number starts at or below the hub LIB (new+irreversible prefix)",
+        "suites": [("hubburst", 2500, 30000), ("hubready", 600, 10000)], "props": ["C09"], "level": "proof",
+        "projection": proj_forkable, "nontrivial": lambda suite, case, impl: any(l.startswith("impl b newirr") or l.startswith("impl ready 1") for l in case["lines"]),
+        "rule": "same cases as C05, plus readiness cases (suite hubready: a real ForkableHub whose one-block bootstrap source replays generated one-block files - up to some height, sometimes with a hole, sometimes no source at all - and whose live source delivers the remaining blocks of a generated tree one by one; IsReady and HeadNum observed after every live block); non-trivial = some burst by number starts at or below the hub LIB (new+irreversible prefix) / the hub became ready",
         "trusted_base": FORKABLE_TB,
         "technique": "Lean 4 model of blocksFromNum/blocksFromNumWithForks/LowestBlockNum/Linkable + snapshot monitor (Lean) + differential correspondence",
         "level_text": "Props/C09: fromNum_spec / served_iff_retained_canonical / fromNum_none — the answer to a request by number is exactly the retained canonical chain from the first block with that number to the head, in order, and there is no source iff no retained canonical block has that number (or the hub has no LIB/head/complete chain); fromNum_event_fields — new-and-irreversible exactly up to the hub LIB, New above, every cursor names the hub head, cursor LIB never above the block; withForks_spec — the with-forks snapshot holds exactly the retained blocks at or above n, as many entries as retained blocks, in non-decreasing height. LowestBlockNum ('itself servable, nothing below it is') and readiness (bootstrap/Linkable) are compared with the implementation and checked by the Lean snapshot monitor on every run.", "level_note": LEVEL_NOTE_COMMON, "explanation": 'theorems for all hub states; tie by differential comparison of every snapshot (2500/30000 histories)',
